@@ -25,8 +25,7 @@ DocAlpha    == <<"a", "A", "b", "a~", " ", "-">>
 DocUniverse == WordsUpTo(DocAlpha, 4)                                  \* 1555 lines
 CornerAlphaAll == <<"a", "'", "$", "^", "!", "|", "\\", " ">>
 CornerUniverse == WordsUpTo(CornerAlphaAll, 3)                         \* 585 lines
-MCUniverse  == WordsUpTo(<<"a", "A", "b", "a~", " ">>, 3)              \* 156 lines
-MCUniverseL == WordsUpTo(DocAlpha, 3)                                  \* 259 lines
+MCUniverse  == WordsUpTo(<<"a", "A", "b", "a~", " ">>, 3)              \* 156 lines (model checking of the theorems)
 
 ExtOpts   == [fuzzy : BOOLEAN, extended : {TRUE}, case : CaseModes, normalize : BOOLEAN]
 BasicOpts == [fuzzy : BOOLEAN, extended : {FALSE}, case : CaseModes, normalize : BOOLEAN]
